@@ -275,6 +275,22 @@ Section ABF.
     end.
   Definition abf_run (c : abf_cfg) (h : list abf_in) := abf_run_from c (abf_init c) h.
 
+  (* ---- script entry points `cv bias <name> bin | bincount | binnum` (colvarbias_abf::current_bin, bin_count,
+     bin_num; colvar_grid::current_bin_flat_bound, value_to_bin_scalar_bound, address): the bin of the current values
+     with every index brought into the grid (periodic: C++ remainder, then clipped to [0, nx-1]), its flat address, the
+     count stored there (also local_sample_count(0)), and the number of bins *)
+  Definition bound1 (c : abf_cfg) (k : nat) (b : Z) : Z :=
+    let n := zget (c_nx c) k in
+    let b1 := if bget (c_periodic c) k then Z.rem b n else b in
+    if b1 <? 0 then 0 else if n <=? b1 then n - 1 else b1.
+  Definition bins_bound (c : abf_cfg) (x : vec) : idx :=
+    map (fun k => bound1 c k (value_to_bin (vget (c_lower c) k) (vget (c_width c) k) (vget x k))) (seq 0 (c_nd c)).
+  Definition flat_address (c : abf_cfg) (ix : idx) : Z :=
+    fold_left (fun a k => a * zget (c_nx c) k + zget ix k) (seq 0 (c_nd c)) 0.
+  Definition abf_bin_num (c : abf_cfg) : Z := fold_left (fun a k => a * zget (c_nx c) k) (seq 0 (c_nd c)) 1.
+  Definition abf_current_bin (c : abf_cfg) (x : vec) : Z := flat_address c (bins_bound c x).
+  Definition abf_count_current (c : abf_cfg) (s : abf_state) (x : vec) : Z := s_cnt s (bins_bound c x).
+
   (* ---- timeStepFactor k > 1 on the bias and its variables (impulse multiple time stepping; only available with
      same-step total forces: colvar.cpp excludes f_cv_multiple_ts with lagged total forces).
      colvarmodule::calc_colvars: bias and variables are awake at the steps whose number is a multiple of k, asleep
